@@ -2271,6 +2271,12 @@ func (gs *GossipSubRouter) getFanoutPeersForPublishing(topic string) map[peer.ID
 }
 
 func (gs *GossipSubRouter) getPeers(topic string, count int, filter func(peer.ID) bool) []peer.ID {
+	// count is an upper bound (D, a number of missing peers, PrunePeers, ...); with a
+	// bound of zero, as in the bootstrapper setting D=0, nothing is selected.
+	if count <= 0 {
+		return nil
+	}
+
 	tmap, ok := gs.p.topics[topic]
 	if !ok {
 		return nil
@@ -2285,7 +2291,7 @@ func (gs *GossipSubRouter) getPeers(topic string, count int, filter func(peer.ID
 
 	shufflePeers(peers)
 
-	if count > 0 && len(peers) > count {
+	if len(peers) > count {
 		peers = peers[:count]
 	}
 
